@@ -11,7 +11,12 @@ func created(op *Op) int {
 	switch op.K {
 	case "new", "copy":
 		return 1
-	case "newBatch", "bulk":
+	case "newBatch":
+		return op.N
+	case "bulk":
+		if op.Sub == "rel" {
+			return 2 * op.N
+		}
 		return op.N
 	}
 	return 0
